@@ -110,7 +110,8 @@ def observe(call, sp=0):
     if not (sp & 4 and all(r is None for r in rolls)):
         cols['roll'] = rolls
     chain = dictable(**cols)
-    chain_before = [[int(c), clock.grid(r)] for c, r in zip(chain['cid'], chain['roll'])] if 'roll' in cols else None
+    chain_before = [[int(c), clock.grid(r) if 'roll' in cols else 0] for c, r in zip(chain['cid'], chain['roll'] if 'roll' in cols else [None] * K)]
+    keys_before = sorted(chain.keys())
     data = frame(clock, call['data'], call['n'])
     data_before = enc_frame(data, clock)
     kw = {'n': call['n']}
@@ -152,7 +153,14 @@ def observe(call, sp=0):
     except Exception as e:
         out = {'kind': 'exc', 'cls': type(e).__name__, 'msg': str(e)[:120]}
     after = {'data': enc_frame(data, clock),
-             'chain': ([[int(c), clock.grid(r)] for c, r in zip(chain['cid'], chain['roll'])] if 'roll' in chain.keys() and 'roll' in cols else None),
-             'chain_keys': sorted(chain.keys())}
+             'chain': [[int(c), clock.grid(r) if 'roll' in cols else 0] for c, r in zip(chain['cid'], chain['roll'] if 'roll' in chain.keys() else [None] * K)],
+             'keys': sorted(chain.keys())}
+    call = dict(call)
+    call.setdefault('check', 1)
     return {'op': 'roll', 'call': call, 'sp': sp, 'out': out, 'loaded': loads, 'checked': checks,
-            'data_before': data_before, 'chain_before': chain_before, 'after': after}, res
+            'data_before': data_before, 'chain_before': chain_before, 'keys_before': keys_before, 'after': after}, res
+
+
+def last_on_cutoff(call):
+    """a feature of the input (for matching findings): some contract's data ends exactly on the cutoff date"""
+    return bool(call['cutoff']) and any(s['rows'] and s['rows'][-1] == call['cutoff'] for s in call['L'])
